@@ -102,6 +102,7 @@ func runWalletCase(r *mon.Run, c WalletCase) {
 		time.Sleep(us(c.HoldUs))
 	}
 
+	r.Count("wallet.coreutils_goroutines_before_close", len(limitlab.Inventory(walletOnly)))
 	p := bounded(func() { rig.W.Close() })
 	var p2 *pending
 	if c.Double {
@@ -148,6 +149,7 @@ func runWalletCase(r *mon.Run, c WalletCase) {
 		return
 	}
 	inv, ok := limitlab.Settle(settleBound/3, walletOnly, func(g []limitlab.Goroutine) bool { return len(g) == 0 })
+	r.Count("wallet.coreutils_goroutines_after_close", len(inv))
 	if !ok {
 		r.Violation("goroutine-left-behind:wallet", "wallet goroutines are still alive after Close returned", vcase, limitlab.Keys(inv))
 		return
